@@ -211,6 +211,7 @@ struct Alloc {
     long fail_at = -1;                   // fail the k-th allocation from now (0 = next), -1 = never
     uint64_t failed = 0;
     int cur_tag = 0;                     // harness may tag allocations (e.g. "payload")
+    std::function<void(void *p, bool twice, int tag)> on_bad_free;   // harness classifier, called before the generic violation
     void reset();
     void *do_malloc(size_t n, bool zero);
     void do_free(void *p);
